@@ -26,6 +26,7 @@ THEOREMS = [
     'IblVerif.C06.append_concatenates',
     'IblVerif.C06.sync_columns_copied',
     'IblVerif.C06.qc_sizes',
+    'IblVerif.C06.prepare_offsets_at_end',
     'IblVerif.C06.short_recording_counterexample',
 ]
 RULE = ('cases = (recording, configuration) x runs (nprocesses, executor, task order).  Recordings: NP1-like, 385 channels (384 voltage '
